@@ -2,4 +2,5 @@ pub mod chart;
 pub mod core;
 pub mod lex;
 pub mod listing;
+pub mod order;
 pub mod subst;
